@@ -29,7 +29,7 @@ func replayC01(c *Ctx, op string, args []string) bool {
 		c01Enc(c, args[0], unhx(args[1]), args[2])
 	case "c01.rt":
 		c02RTop(c, op, args[0], args[1], unhx(args[2]), args[3], args[4])
-	case "c02.tf", "c02.dec", "c02.dec2":
+	case "c02.tf", "c02.dec", "c02.dec2", "c02.hist":
 		return replayC02(c, op, args)
 	default:
 		return false
@@ -107,7 +107,7 @@ func genC01(c *Ctx) {
 		run(&nbtNode{tag: 9, elem: 8, list: []*nbtNode{{tag: 8, data: s}, {tag: 8}}}, nil, []string{"any", "raw"}, false)
 	}
 	// 2. random documents of depth <= 6, any root
-	for i := 0; i < c.N(2500, 150000); i++ {
+	for i := 0; i < c.N(2000, 150000); i++ {
 		t := g.tree(0, 1+g.r.Intn(6))
 		dests := []string{"any", "raw"}
 		if t.tag == 10 {
@@ -118,7 +118,7 @@ func genC01(c *Ctx) {
 		run(t, name(), dests, i%50 == 0)
 	}
 	// 3. compounds aimed at the fixed struct types
-	for i := 0; i < c.N(2500, 150000); i++ {
+	for i := 0; i < c.N(2000, 150000); i++ {
 		t := g.fixTree(2)
 		if i%3 == 0 {
 			// as the "inner" field of the outer type
@@ -127,8 +127,59 @@ func genC01(c *Ctx) {
 		}
 		run(t, name(), []string{"fix1", "fix2", "any", "map", "skip", "disallow"}, i%50 == 0)
 	}
+	// 3b. long containers: counts around 64, 128, 256, 1024, 4096 and far above, for the three array kinds, strings,
+	// lists of every element tag and compounds; alone at the root and as a field of a compound
+	nlong := 0
+	long := func(nd *nbtNode, n int) {
+		wrapped := &nbtNode{tag: 10, keys: [][]byte{[]byte("a"), []byte("z")}, vals: []*nbtNode{nd, {tag: 1, num: 7}}}
+		if n <= 300 {
+			run(nd, name(), []string{"any", "raw"}, false)
+			run(wrapped, nil, []string{"any", "map", "skip", "raw"}, false)
+			return
+		}
+		// the executable models take time quadratic in the size of a case: one format, three destinations
+		nlong++
+		format := []string{"file", "net"}[nlong%2]
+		doc, _ := nd.doc(format, nil)
+		nbtEmitDec(c, "c01.dec", []string{"any", "raw"}[nlong%2], format, nbtReaderKinds[nlong%3], append(doc, c01Trailing(g)...))
+		if n <= 1100 {
+			nbtEmitDec(c, "c01.dec", []string{"raw", "any"}[nlong%2], format, nbtReaderKinds[(nlong+1)%3], doc)
+			if nd.tag != 9 && nd.tag != 10 || c.Thorough() {
+				wdoc, _ := wrapped.doc(format, nil)
+				nbtEmitDec(c, "c01.dec", []string{"map", "skip", "any"}[nlong%3], format, nbtReaderKinds[(nlong+2)%3], wdoc)
+			}
+		}
+	}
+	for _, tag := range []byte{7, 11, 12} {
+		for _, n := range nbtSizes(c, c.N(3, 15), true) {
+			long(g.bigNode(tag, 0, n), n)
+		}
+	}
+	for _, n := range nbtSizes(c, c.N(1, 10), true) {
+		long(g.bigNode(8, 0, n), n)
+	}
+	for _, n := range nbtSizes(c, c.N(1, 10), false) {
+		long(g.bigNode(10, 0, n), n)
+	}
+	bigElems := map[byte]bool{byte(1 + c.R.Intn(6)): true, 8: c.R.Intn(2) == 0}
+	longElem := []byte{7, 9, 10, 11, 12}[c.R.Intn(5)] // the one container element kind that gets the 1025 on the quick tier
+	for e := byte(1); e <= 12; e++ {
+		for _, n := range nbtSizes(c, c.N(1, 6), bigElems[e] || (c.Thorough() && e <= 8)) {
+			if (n > 1100 || n > 300 && e != longElem) && (e == 7 || e >= 9) && !c.Thorough() {
+				n = nbtSmallSizes[c.R.Intn(len(nbtSmallSizes))] // elements that are containers themselves: the case would be huge
+			}
+			long(g.bigNode(9, e, n), n)
+		}
+	}
+	// root names and keys of 31..33, 62..65, 127..129, 255..257 bytes (decoding; the encoder's side is in c01enc / c01.rt)
+	for _, n := range []int{31, 32, 33, 62, 63, 64, 65, 127, 128, 129, 255, 256, 257} {
+		nm := g.bytesOf(n)
+		run(&nbtNode{tag: 3, num: 7}, nm, []string{"any", "raw"}, false)
+		run(&nbtNode{tag: 10, keys: [][]byte{nm, g.bytesOf(n)}, vals: []*nbtNode{{tag: 1, num: 7}, {tag: 8, data: g.bytesOf(n)}}}, nm,
+			[]string{"any", "map", "skip", "raw"}, false)
+	}
 	// 4. deep nesting (lists of lists, compounds of compounds)
-	for _, depth := range []int{10, 100, 1000, c.N(3000, 6000)} {
+	for _, depth := range []int{10, 100, 1000, c.N(2000, 6000)} {
 		t := &nbtNode{tag: 1, num: 5}
 		for d := 0; d < depth; d++ {
 			if d%2 == 0 {
@@ -170,4 +221,6 @@ func genC01(c *Ctx) {
 		}
 	}
 	c02GenDec(c, cg, descs, types, c.N(3, 30), c.N(2, 20))
+	c02LongCases(c, cg, "c01.rt")
+	c02StagedCases(c, cg, "c01.rt")
 }
